@@ -104,12 +104,21 @@ func writeReplay(t *testing.T, dir string, res *Result, tier string, doShrink bo
 	vals := res.ChoiceVals
 	orig := len(vals)
 	runs := 0
+	isRace := strings.HasPrefix(sig, "race:")
+	if isRace {
+		// the detector reports a pair of stacks once per process: neither shrinking nor an in-process
+		// re-run can observe it again; the replay (seed + full choice list) reproduces in a fresh process
+		doShrink = false
+	}
 	if doShrink {
 		vals, runs = shrink(t, res.Prop, tier, res.Seed, vals, sig, envInt("SIM_SHRINK_BUDGET", 300), res.Steps*2+20000)
 	}
 	// final run with the full trace; must reproduce
-	fin := RunOne(t, res.Prop, res.Seed, vals, tier, true)
-	if firstSig(fin) != sig {
+	fin := res
+	if !isRace {
+		fin = RunOne(t, res.Prop, res.Seed, vals, tier, true)
+	}
+	if !isRace && firstSig(fin) != sig {
 		// fall back to the unshrunk list
 		vals = res.ChoiceVals
 		fin = RunOne(t, res.Prop, res.Seed, vals, tier, true)
